@@ -1,6 +1,7 @@
 package main
 
 import (
+	"fmt"
 	"go/ast"
 	"go/token"
 	"go/types"
@@ -10,7 +11,7 @@ func init() {
 	register(&propDef{
 		id: "C04", title: "Every mailbox implementation behaves like its sequential specification",
 		technique: "atomic-discipline rule over every field touched by sync/atomic, sibling cross-check over all Mailbox implementors (full-error/rollback, counter-before-publish, recycle-not-returned), slot publication order in the lock-free rings, lock pairing",
-		explanation: "Decides structural necessary conditions for each of the mailbox implementations (and the grain mailbox): (1) atomic discipline: every struct field passed by address to sync/atomic anywhere in the actor package is accessed only that way (constructors exempt); (2) siblings: every implementor of Mailbox is enumerated; an Enqueue that reports ErrMailboxFull does so only on a branch guarded by a capacity/sequence comparison and has rolled back any counter it had bumped; (3) a length counter read by IsEmpty/Len is incremented by Enqueue no later than the publication of the message where the type documents that (counter bump precedes the intake push); (4) Dequeue never recycles the context it returns: what goes back to the context pool is the previously returned one / the old sentinel, a different variable on every path; (5) ring slots: in the Vyukov ring the producer writes the message only after winning the position CAS and publishes the slot sequence only after writing the message; the consumer reads and clears the message before releasing the slot; the MPSC list links value.next=nil, swaps the tail, then links prev.next (the order the consumer relies on); (6) mutex-protected mailboxes release their lock on every exit. Linearizability, FIFO/priority order and capacity under interleavings are not decided.",
+		explanation: "Decides structural necessary conditions for each of the mailbox implementations (and the grain mailbox): (1) atomic discipline: every struct field passed by address to sync/atomic anywhere in the actor package is accessed only that way (constructors exempt); (2) siblings: every implementor of Mailbox is enumerated; an Enqueue that reports ErrMailboxFull does so only on a branch guarded by a capacity/sequence comparison and has rolled back any counter it had bumped; (3) a length counter read by IsEmpty/Len is incremented by Enqueue no later than the publication of the message where the type documents that (counter bump precedes the intake push); (4) Dequeue never recycles the context it returns: what goes back to the context pool is the previously returned one / the old sentinel, a different variable on every path; (5) ring slots: in the Vyukov ring the producer writes the message only after winning the position CAS and publishes the slot sequence only after writing the message; the consumer reads and clears the message before releasing the slot; the MPSC list links value.next=nil, swaps the tail, then links prev.next (the order the consumer relies on); (6) mutex-protected mailboxes release their lock on every exit. Linearizability, FIFO/priority order and capacity under interleavings are not decided. Added after seed C04b and F23: (7) no load-then-store on a field that is also updated by read-modify-write (same rule as C02); (8) the priority intake is a Treiber stack whose consumer walks next to nil: push publishes through exactly one compare-and-swap of head, links next before it to exactly the expected head, never writes next after a successful CAS, re-links after a failed one and returns only after success; drain detaches with one exchange with nil; (9) the segmented mailbox's consumer advances head past a segment and recycles it only on a branch where its dequeue index has reached the segment capacity (not on a writeIdx snapshot taken before next was loaded). Reuse of a pooled segment by a producer that still holds a stale tail pointer (ABA) is NOT decided.",
 		assumptions: []string{"linearizability of the lock-free queues under all interleavings, segment roll-over and ABA on pooled nodes", "single-consumer use of Dequeue (checked in C02)"},
 		minObl:     70,
 		run:        runC04,
@@ -27,6 +28,12 @@ func runC04(c *Ctx) {
 		n := c.AtomicDiscipline("atomic", "actor")
 		if n < 40 {
 			c.Undecided("count", "at least 40 accesses of atomically-accessed fields", "-", "found fewer")
+		}
+	})
+	c.Rule("no-lost-update", func() {
+		n := c.NoLostUpdate("rmw", "actor")
+		if n < 1 {
+			c.Undecided("count", "at least one Store on a field that is also updated by read-modify-write", "-", "found none")
 		}
 	})
 	if c.Thorough() {
@@ -263,6 +270,111 @@ func runC04(c *Ctx) {
 		}
 	})
 
+	c.Rule("treiber", func() {
+		// priorityIntake: the consumer detaches the whole stack and walks next to nil, so a node reachable through
+		// head must already be linked (the unbounded MPSC list tolerates the opposite order; this stack does not).
+		headF := c.Field("actor", "priorityIntake", "head")
+		nextF := c.Field("actor", "ReceiveContext", "next")
+		fn := c.Func("actor", "priorityIntake.push")
+		f := c.NewFlow(fn)
+		info := f.Info
+		where := c.P.Pos(fn.Decl.Pos())
+		atomicOn := func(n ast.Node, fld *types.Var) (*ast.CallExpr, string) { return atomicOnIn(info, n, fld) }
+		link := func(n ast.Node) bool { _, k := atomicOn(n, nextF); return k == "StorePointer" }
+		publish := func(n ast.Node) bool {
+			_, k := atomicOn(n, headF)
+			return k != "" && k != "LoadPointer"
+		}
+		pubs := f.FindOnce(publish)
+		links := f.FindOnce(link)
+		okShape := len(pubs) == 1 && len(links) == 1
+		var linked, expected types.Object
+		if okShape {
+			pc, k := atomicOn(pubs[0].N, headF)
+			okShape = k == "CompareAndSwapPointer" && len(pc.Args) == 3
+			if okShape {
+				expected = objOf(info, stripConv(info, pc.Args[1]))
+				lc, _ := atomicOn(links[0].N, nextF)
+				linked = objOf(info, stripConv(info, lc.Args[1]))
+			}
+		}
+		c.Check(okShape, "push/publish-is-cas", "the intake publishes a node through exactly one compare-and-swap of head (an unconditional exchange would expose the node before it is linked)", where, fmt.Sprintf("%d writes of head, %d links of next in push", len(pubs), len(links)))
+		if okShape {
+			c.Check(expected != nil && expected == linked, "push/linked-to-expected", "the node is linked to exactly the head value the CAS expects", where, "the value stored in next and the CAS's expected head are different variables")
+			w := f.MustPrecede(link, nil, publish)
+			c.Check(w == nil, "push/link≺publish", "the node's next is written before the CAS that makes it reachable", where, f.describe(w))
+			won := f.CondEdges(exprMatch(publish), true)
+			lost := f.CondEdges(exprMatch(publish), false)
+			if len(won) == 0 || len(lost) == 0 {
+				c.Undecided("push/cas-tested", "the CAS result decides between return and retry", where, "the CAS is not used as a branch condition")
+			} else {
+				w = f.AfterEdgesMayReach(won, nil, nil, link)
+				c.Check(w == nil, "push/no-link-after-publish", "a published node's next is never written again by the producer (the consumer owns it)", where, f.describe(w))
+				w = f.AfterEdgesMayReach(lost, link, nil, publish)
+				c.Check(w == nil, "push/relink-on-retry", "a failed CAS re-links the node to the fresh head before retrying", where, f.describe(w))
+				w = f.search(searchSpec{avoidEdges: won, exits: true})
+				c.Check(w == nil, "push/returns-only-published", "push returns only after a CAS succeeded", where, f.describe(w))
+			}
+		}
+		// the consumer side: drain takes the whole stack in one exchange with nil
+		dr := c.Func("actor", "priorityIntake.drain")
+		df := c.NewFlow(dr)
+		n := 0
+		okDrain := true
+		for _, a := range df.FindOnce(func(n ast.Node) bool { _, k := atomicOnIn(df.Info, n, headF); return k != "" }) {
+			n++
+			call, k := atomicOnIn(df.Info, a.N, headF)
+			if k != "SwapPointer" || len(call.Args) != 2 || !isNilIdent(df.Info, call.Args[1]) {
+				okDrain = false
+			}
+		}
+		c.Check(okDrain && n == 1, "drain/detach-atomically", "drain detaches the batch with a single exchange of head with nil (no load-then-store window that would lose a concurrent push)", c.P.Pos(dr.Decl.Pos()), fmt.Sprintf("%d atomic accesses of head in drain", n))
+	})
+
+	c.Rule("segmented", func() {
+		// The consumer leaves (and recycles) a segment only once it has consumed every slot of it: a decision taken
+		// on a snapshot of writeIdx alone skips a slot filled between that snapshot and the load of next (F23).
+		typ := "UnboundedSegmentedMailbox"
+		deqIdx := c.Field("actor", "segment", "deqIdx")
+		dataF := c.Field("actor", "segment", "data")
+		headF := c.Field("actor", typ, "head")
+		arr, _ := dataF.Type().Underlying().(*types.Array)
+		fn := c.Func("actor", typ+".Dequeue")
+		f := c.NewFlow(fn)
+		info := f.Info
+		where := c.P.Pos(fn.Decl.Pos())
+		if arr == nil {
+			c.Undecided("advance/only-when-consumed", "the consumer leaves a segment only after consuming all its slots", where, "segment.data is not an array")
+			return
+		}
+		isDeq := func(e ast.Expr) bool {
+			e = ast.Unparen(e)
+			if id, ok := e.(*ast.Ident); ok {
+				if def := singleLocalDefIn(info, fn.Decl.Body, info.ObjectOf(id)); def != nil {
+					e = ast.Unparen(def)
+				}
+			}
+			return callOnFieldMatch(info, deqIdx, "Load")(e)
+		}
+		isCap := func(e ast.Expr) bool {
+			v, ok := constInt(info, e)
+			return ok && v == arr.Len()
+		}
+		consumed := f.FactEdges(func(cm cmp) bool {
+			return (cm.Op == token.GEQ || cm.Op == token.EQL) && isDeq(cm.L) && isCap(cm.R)
+		})
+		pool := c.pkg("actor").Types.Scope().Lookup("segmentPool")
+		leave := Or(f.CallOnField(headF, "Store"), func(n ast.Node) bool {
+			call, ok := n.(*ast.CallExpr)
+			if !ok {
+				return false
+			}
+			sel, ok := ast.Unparen(call.Fun).(*ast.SelectorExpr)
+			return ok && sel.Sel.Name == "Put" && objOf(info, sel.X) == pool
+		})
+		c.guardedBy(f, consumed, leave, "advance/only-when-consumed", "the consumer advances head past a segment and recycles it only on a branch where its dequeue index has reached the segment capacity", where)
+	})
+
 	c.Rule("locks", func() {
 		n := 0
 		for _, named := range impls {
@@ -319,4 +431,21 @@ func atomicAddDelta(info *types.Info, n ast.Node) int {
 		return -1
 	}
 	return 0
+}
+
+// atomicOnIn: n is a sync/atomic call whose first argument is &<expr>.fld; returns the call and the function name.
+func atomicOnIn(info *types.Info, n ast.Node, fld *types.Var) (*ast.CallExpr, string) {
+	call, ok := n.(*ast.CallExpr)
+	if !ok || len(call.Args) == 0 {
+		return nil, ""
+	}
+	cal := callee(info, call)
+	if cal == nil || cal.Pkg() == nil || cal.Pkg().Path() != "sync/atomic" {
+		return nil, ""
+	}
+	u, ok := ast.Unparen(call.Args[0]).(*ast.UnaryExpr)
+	if !ok || u.Op != token.AND || selField(info, u.X) != fld {
+		return nil, ""
+	}
+	return call, cal.Name()
 }
